@@ -73,6 +73,63 @@ pub struct ForgeCase {
 }
 
 #[derive(Clone, Debug, Serialize, Deserialize)]
+pub struct GrindCase {
+    pub hash: HashId,
+    pub w: u32,
+    pub msg_counter: u64,
+}
+
+/// Checksum (sum of 2^w-1 - digit) of the LM-OTS digest the verifier computes for `msg` under the
+/// forged triple `t` (single level), and its maximum.
+fn grind_sum(h: HashId, w: u32, t: &wire::Triple, msg: &[u8]) -> (u32, u32) {
+    let n = h.n();
+    let q = crate::refmodel::hash(h, &[&t.pk[12..28], &t.sig[4..8], &crate::refmodel::D_MESG, &t.sig[12..12 + n], msg]);
+    let u = 8 * n / w as usize;
+    let max = (1u32 << w) - 1;
+    let mut s = 0u32;
+    for i in 0..u {
+        s += max - crate::refmodel::ots::coef(&q, i, w);
+    }
+    (s, max * u as u32)
+}
+
+/// Message counters with the highest and the lowest digest checksum among `cands` candidates.
+fn grind(h: HashId, w: u32, cands: u64) -> Vec<u64> {
+    let t = wire::forge(h, &[(w, 5)], 1, 0x6a1d, 0);
+    let workers = crate::engine::WORKERS as u64;
+    let best: std::sync::Mutex<Vec<(u32, u64)>> = std::sync::Mutex::new(Vec::new());
+    std::thread::scope(|s| {
+        for k in 0..workers {
+            let t = &t;
+            let best = &best;
+            s.spawn(move || {
+                let (mut hi, mut lo) = ((0u32, 0u64), (u32::MAX, 0u64));
+                let mut i = k;
+                while i < cands {
+                    let (sum, _) = grind_sum(h, w, t, &i.to_be_bytes());
+                    if sum > hi.0 {
+                        hi = (sum, i);
+                    }
+                    if sum < lo.0 {
+                        lo = (sum, i);
+                    }
+                    i += workers;
+                }
+                let mut g = best.lock().unwrap();
+                g.push(hi);
+                g.push(lo);
+            });
+        }
+    });
+    let mut v = best.into_inner().unwrap();
+    v.sort();
+    let mut out: Vec<u64> = Vec::new();
+    out.extend(v.iter().take(3).map(|x| x.1));
+    out.extend(v.iter().rev().take(3).map(|x| x.1));
+    out
+}
+
+#[derive(Clone, Debug, Serialize, Deserialize)]
 pub struct SpecialCase {
     pub hash: HashId,
     pub kind: String,
@@ -138,6 +195,12 @@ fn special(c: &SpecialCase, pool: &[Base]) -> Verdict {
             // longer than any valid signature / than a u16 length
             let mut sig = b.sig.clone();
             sig.resize(c.a as usize, 0xa5);
+            total(h, &b.msg, &sig, &b.pk)
+        }
+        "long-nspk" => {
+            // (a >> 32) = leading Nspk word, low 32 bits = total length
+            let mut sig = vec![0x5au8; (c.a & 0xffff_ffff) as usize];
+            sig[0..4].copy_from_slice(&((c.a >> 32) as u32).to_be_bytes());
             total(h, &b.msg, &sig, &b.pk)
         }
         "long-pk" => {
@@ -287,6 +350,31 @@ pub fn run(ctx: &Ctx) {
         }
     });
 
+    // targeted search: messages whose LM-OTS digest has an extreme checksum (found by grinding
+    // message counters against a fixed well-formed forgery), then verified - the checksum
+    // arithmetic of the verifier is exercised at the ends of its range
+    let mut gr: Vec<GrindCase> = Vec::new();
+    for h in ALL_HASHES {
+        for w in [1u32, 2, 4, 8] {
+            // (n=32, w=2) and (n=32, w=1) have the widest sums: search deeper there
+            let cands: u64 = if h.n() == 32 && w <= 2 { ctx.tier.pick(1 << 24, 1 << 26) } else { ctx.tier.pick(1 << 19, 1 << 22) };
+            for ctr in grind(h, w, cands) {
+                gr.push(GrindCase { hash: h, w, msg_counter: ctr });
+            }
+        }
+    }
+    ctx.note("grind_extreme_checksum_candidates_per_pair", serde_json::json!({"n32_w<=2": ctx.tier.pick(1u64 << 24, 1u64 << 26), "other": ctx.tier.pick(1u64 << 19, 1u64 << 22)}));
+    ctx.enumerate("extreme_checksum_digests", gr.len() as u64, false, |i| gr[i as usize].clone(), |c: &GrindCase| {
+        let t = wire::forge(c.hash, &[(c.w, 5)], 1, 0x6a1d, 0);
+        let msg = c.msg_counter.to_be_bytes().to_vec();
+        let (sum, maxsum) = grind_sum(c.hash, c.w, &t, &msg);
+        match total(c.hash, &msg, &t.sig, &t.pk) {
+            Ok(true) => fail("forgery-accepted", "a random well-formed forgery verifies"),
+            Ok(false) => pass(format!("{}|w{}|{}", c.hash.name(), c.w, if sum * 2 > maxsum { "high-checksum" } else { "low-checksum" }), true),
+            Err((k, m)) => fail(k, format!("{} [digest with checksum {} of at most {}, message counter {}]", m, sum, maxsum, c.msg_counter)),
+        }
+    });
+
     // special inputs
     let mut sp: Vec<SpecialCase> = Vec::new();
     for h in ALL_HASHES {
@@ -308,6 +396,13 @@ pub fn run(ctx: &Ctx) {
         }
         for a in [59u64, 60, 61, 64, 100, 65535, 65536, 70000] {
             sp.push(SpecialCase { hash: h, kind: "long-pk".into(), a });
+        }
+        if h == HashId::Sha256_256 || h == HashId::Shake256_128 {
+            for nspk in 0..=9u64 {
+                for len in [65_534u64, 65_535, 65_536, 65_537, 65_608, 66_000, 70_000, 74_987, 74_988, 74_989, 75_000, 100_000] {
+                    sp.push(SpecialCase { hash: h, kind: "long-nspk".into(), a: (nspk << 32) | len });
+                }
+            }
         }
     }
     ctx.enumerate("special_inputs", sp.len() as u64, false, |i| sp[i as usize].clone(), |c| special(c, pool));
